@@ -98,9 +98,28 @@ def write_out_state(rng, state, path_base):
     return regions, code
 
 
+def refresh_source(rng, pool):
+    """Rewrite one pooled source cart in place (same path, new contents): a later build must see the file as it is now."""
+    kind = rng.choice(('p8', 'png'))
+    it = rng.choice(pool.items[kind])
+    regions, _ = carts.random_regions(rng, 'uniform')
+    regions['music'] = rc.music_mask(regions['music'])
+    code = carts.simple_lua(rng, rng.choice((30, 200)))
+    if kind == 'p8':
+        data = rc.write_p8(regions, code, version=8)
+    else:
+        data = rc.write_p8png(regions, rc.raw_code_area(code), 8)
+    with open(it['path'], 'wb') as fh:
+        fh.write(data)
+    it['regions'], it['code'] = regions, code
+
+
 def run_build(ctx, rng, pool, root, assign, out_state, out_fmt, lua_from_file):
     from pico8 import tool
     from pico8.game import file as p8file
+    if rng.random() < 0.25:
+        refresh_source(rng, pool)
+        ctx.feature('source_rewritten_in_place')
     out = os.path.join(root, 'out.p8' if out_fmt == 'p8' else 'out.p8.png')
     for f in (os.path.join(root, 'out.p8'), os.path.join(root, 'out.p8.png')):
         if os.path.exists(f):
